@@ -44,6 +44,7 @@ func runFQ(t *simrt.Tape, o *simos.OS, opt fqOpts) *fqRun {
 	sim := simrt.New(t, opt.Policy, opt.Budget)
 	defer sim.Close()
 	sim.Coarse = !opt.Fine
+	sim.WatchdogMs = 10000 // inputs are small: ten seconds without a scheduling point is a hang
 	// fixed order: knob names sorted by the caller's construction
 	for _, k := range []string{"cacheReadAheadSize", "progressPrecision"} {
 		if v, ok := opt.Knobs[k]; ok {
